@@ -1,5 +1,5 @@
 """C15 — client transports deliver each answer to its own request, exactly once
-(spec/ClientStream.tla, spec/ClientDgram.tla, spec/ClientDgramPar.tla, spec/ClientCompose.tla,
+(spec/ClientStream.tla, spec/ClientFlow.tla, spec/ClientDgram.tla, spec/ClientDgramPar.tla, spec/ClientCompose.tla,
 spec/MC_ClientMulti.tla, spec/Trace_ClientMulti.tla, spec/ClientConfig.tla, spec/ClientMsg.tla)."""
 import json
 import os
@@ -22,8 +22,8 @@ DEV = "D_stream_response_timeout_ignored"
 
 META = {
     "category": "model_checking",
-    "text": "TLC explores the stream transport (one action per select! arm of Transport::run, the slot table with ID = slot index, timers, an adversarial peer that may send any message of an alphabet at any time, end the stream or stop reading) and the datagram transport (attempts, random IDs, receive loop, retries) and checks OwnAnswer, AtMostOnce, NoCross, SlotTableSound, NothingLost, the timer/retry budget and completion (liveness under fairness of the task and the clock). Every transition of the explored macro-step state graphs is replayed into the real stream::Connection/Transport and dgram::Connection over in-memory sockets on a paused clock, comparing requests written and the outcome of every get_response() after every step; recorded runs with 50 concurrent requests against a seeded hostile peer are validated by TLC against the specification with the invariants evaluated at every step. The budgets are the configured ones: ClientConfig.tla models every public configuration setter of dgram, stream, multi_stream, dgram_stream, redundant and load_balancer (documented ranges and defaults, routes new / default / from / from_parts / ..._mut / set_... / Connection::new) as configuration scripts; the model constants of the transports are what a script leaves in force, TLC checks the operational definitions against the declarative reading (asked for, capped to the range; never asked: the default) and generates, per setter, values at / just inside / just outside both ends of its range, which are replayed as getter sequences on the real objects and as loss scenarios on the running transports (dgram: 1 + max_retries datagrams read_timeout apart, OPT payload size on the wire, receive buffer offered to the socket, max_parallel sockets open at once under bursts of 1002 requests; stream: response / streaming / idle timeouts running out on clocks of 10 s, 70 s and 600 s ticks; multi_stream and dgram_stream: completion no later than the configured response timeout, the stream connections underneath giving up / going idle after the stream::Config part; load_balancer: ConnConfig scripts in the recorded runs). Completion TIME under connection-establishment faults: on a clock finer than multi_stream's back-off (MC_ClientMulti.tla over ClientCompose's MFineTickSet) the pause of Request::get_response in state Delay and the error state of Transport::run last a nondeterministic time within their documented range (below 2^n s, at most 60 s); TLC checks that every request is completed exactly once and no later than its response timeout after submission whatever the pauses are, and validates recorded runs of the real multi_stream over a connector whose connect() fails on demand (refused, accepted and closed, answered, wrong answer; repeated; ticks of 250 ms and 4 s; response timeouts of 1 ms ... 100 s and the default, below / about / above the back-offs) against it (Trace_ClientMulti.tla), the deadline evaluated in every state.",
-    "note": "Trusted: TLC, the transcription in ClientStream.tla/ClientDgram.tla, the harness (in-memory sockets, interposed CLOCK_MONOTONIC so that std::time::Instant follows the paused tokio clock). Errors are compared as a class, not by value. ClientCompose.tla models multi_stream (connect phase, close, back-off, re-issue; completion no later than the response timeout after submission) and dgram_stream (TCP iff TC, the truncated answer is never delivered) over abstract stream connections; its macro-step graph is checked by TLC and replayed into the real multi_stream / dgram_stream over a mock connector. The redundant / load_balancer leg (upstream order and probe timer left open, burst limits exact) is model-checked and bound by validating recorded runs of the real balancers over scripted upstreams (0..3 upstreams, all result kinds, burst limits; a panicking request future is an observation no rule accepts). Zone transfers on the stream transport (SubmitMulti, check_stream transcribed, re-insert at the same ID) are modelled and bound (replay and recorded traces). The peer's question is a triple (name, type, class) varied one component at a time, plus letter case and QDCOUNT 0/2. Fine clock (Trace_ClientMulti): back-off and error-state durations are hidden choices of the specification within [one tick, ceil(2^n s / tick)]; a pause of no time at all (random value below 1 us) is not modelled; the 250 ms runs have one request per scenario (hidden choices of two requests multiply), the 4 s runs up to two; connection faults there are connect refused and EOF from the peer (write errors / stalled peers are covered on the stream transport itself). Not covered: response-time estimation / fairness of the balancers, two multi_stream requests whose back-offs end in the same tick (order is random in the code), how many octets a stalled write has taken (stalled and short writes themselves are covered: a second request arriving while the first is half written), more than 65535/2 outstanding requests, real sockets/TLS. demux_reply restarts the response timer for every message, also for unknown IDs: bounded in the model (MaxFrames); see report. D_stream_response_timeout_ignored (the configured response timeout was never in force for ordinary requests) is fixed in the tree; the deviation model stays as documentation. Configuration: a response timeout that is a whole number of ticks is avoided (at elapsed = timeout exactly the run loop sleeps for zero time until the clock moves, which the frozen clock never does); not bound to a running transport: slow_rt_factor (getter only), the upper end of burst_interval (361 ticks; getter only), recv_size beyond the buffer offered (what a longer datagram then looks like is not judged).",
+    "text": "TLC explores the stream transport (one action per select! arm of Transport::run, the slot table with ID = slot index, timers, an adversarial peer that may send any message of an alphabet at any time, end the stream or stop reading) and the datagram transport (attempts, random IDs, receive loop, retries) and checks OwnAnswer, AtMostOnce, NoCross, SlotTableSound, NothingLost, the timer/retry budget and completion (liveness under fairness of the task and the clock). Every transition of the explored macro-step state graphs is replayed into the real stream::Connection/Transport and dgram::Connection over in-memory sockets on a paused clock, comparing requests written and the outcome of every get_response() after every step; recorded runs with 50 concurrent requests against a seeded hostile peer are validated by TLC against the specification with the invariants evaluated at every step. The budgets are the configured ones: ClientConfig.tla models every public configuration setter of dgram, stream, multi_stream, dgram_stream, redundant and load_balancer (documented ranges and defaults, routes new / default / from / from_parts / ..._mut / set_... / Connection::new) as configuration scripts; the model constants of the transports are what a script leaves in force, TLC checks the operational definitions against the declarative reading (asked for, capped to the range; never asked: the default) and generates, per setter, values at / just inside / just outside both ends of its range, which are replayed as getter sequences on the real objects and as loss scenarios on the running transports (dgram: 1 + max_retries datagrams read_timeout apart, OPT payload size on the wire, receive buffer offered to the socket, max_parallel sockets open at once under bursts of 1002 requests; stream: response / streaming / idle timeouts running out on clocks of 10 s, 70 s and 600 s ticks; multi_stream and dgram_stream: completion no later than the configured response timeout, the stream connections underneath giving up / going idle after the stream::Config part; load_balancer: ConnConfig scripts in the recorded runs). Delivery of multi-response requests whatever the relative speed of peer and consumer (ClientFlow.tla): the reply channel of capacity 8 between Transport::run and RequestMulti with the consumer as an actor of its own; TLC checks, with peer, transport task and consumer scheduled independently, that what get_response() has handed out is a prefix of what the peer sent for the request, equal to it at the end of the stream, that the queue never exceeds its capacity and nothing stays stuck in the pipeline (also after the caller dropped the request mid-stream), and that a channel that drops when full violates this; every transition of the macro-step graph (bursts of up to a whole transfer of 12 messages while the consumer is not calling, consumer pauses, requests dropped mid-stream, a single request on the same connection afterwards) is replayed into the real stream::Connection with a consumer that calls get_response() only when the case says so. Completion TIME under connection-establishment faults: on a clock finer than multi_stream's back-off (MC_ClientMulti.tla over ClientCompose's MFineTickSet) the pause of Request::get_response in state Delay and the error state of Transport::run last a nondeterministic time within their documented range (below 2^n s, at most 60 s); TLC checks that every request is completed exactly once and no later than its response timeout after submission whatever the pauses are, and validates recorded runs of the real multi_stream over a connector whose connect() fails on demand (refused, accepted and closed, answered, wrong answer; repeated; ticks of 250 ms and 4 s; response timeouts of 1 ms ... 100 s and the default, below / about / above the back-offs) against it (Trace_ClientMulti.tla), the deadline evaluated in every state.",
+    "note": "ClientFlow: no I->S recorder for the slow consumer yet (S->I only); timers and connection ends are not combined with a full reply channel (while demux_reply waits for room the run loop checks no timer: not judged). Trusted: TLC, the transcription in ClientStream.tla/ClientDgram.tla, the harness (in-memory sockets, interposed CLOCK_MONOTONIC so that std::time::Instant follows the paused tokio clock). Errors are compared as a class, not by value. ClientCompose.tla models multi_stream (connect phase, close, back-off, re-issue; completion no later than the response timeout after submission) and dgram_stream (TCP iff TC, the truncated answer is never delivered) over abstract stream connections; its macro-step graph is checked by TLC and replayed into the real multi_stream / dgram_stream over a mock connector. The redundant / load_balancer leg (upstream order and probe timer left open, burst limits exact) is model-checked and bound by validating recorded runs of the real balancers over scripted upstreams (0..3 upstreams, all result kinds, burst limits; a panicking request future is an observation no rule accepts). Zone transfers on the stream transport (SubmitMulti, check_stream transcribed, re-insert at the same ID) are modelled and bound (replay and recorded traces). The peer's question is a triple (name, type, class) varied one component at a time, plus letter case and QDCOUNT 0/2. Fine clock (Trace_ClientMulti): back-off and error-state durations are hidden choices of the specification within [one tick, ceil(2^n s / tick)]; a pause of no time at all (random value below 1 us) is not modelled; the 250 ms runs have one request per scenario (hidden choices of two requests multiply), the 4 s runs up to two; connection faults there are connect refused and EOF from the peer (write errors / stalled peers are covered on the stream transport itself). Not covered: response-time estimation / fairness of the balancers, two multi_stream requests whose back-offs end in the same tick (order is random in the code), how many octets a stalled write has taken (stalled and short writes themselves are covered: a second request arriving while the first is half written), more than 65535/2 outstanding requests, real sockets/TLS. demux_reply restarts the response timer for every message, also for unknown IDs: bounded in the model (MaxFrames); see report. D_stream_response_timeout_ignored (the configured response timeout was never in force for ordinary requests) is fixed in the tree; the deviation model stays as documentation. Configuration: a response timeout that is a whole number of ticks is avoided (at elapsed = timeout exactly the run loop sleeps for zero time until the clock moves, which the frozen clock never does); not bound to a running transport: slow_rt_factor (getter only), the upper end of burst_interval (361 ticks; getter only), recv_size beyond the buffer offered (what a longer datagram then looks like is not judged).",
     "technique": "TLA+ specs (ClientStream.tla, ClientDgram.tla, ClientDgramPar.tla, ClientCompose.tla, MC_ClientMulti.tla, Trace_ClientMulti.tla, ClientConfig.tla) + TLC exhaustive (safety, liveness); spec->impl behaviour replay on a virtual clock; impl->spec trace validation",
     "design_ref": "DESIGN.md §4 C15",
 }
@@ -132,6 +132,58 @@ def _replay(ctx, thorough):
     if pgen.ncases < 500:
         raise vlib.ToolError("dgram path generator produced too few cases: %d" % pgen.ncases)
     ctx.replay_cases("replay_client", pcases, label="dgram-paths")
+
+
+FLOW_ACTIONS = ["FSubmit", "PeerSends", "Transport", "DemuxDeliver", "GetResponse", "Consume", "DropRequest"]
+
+
+def _flow(ctx, thorough):
+    """ClientFlow: multi-response requests with the reply channel of capacity
+    8 between transport and request and the consumer as an actor of its own
+    (peer, transport task and consumer scheduled independently): what the
+    consumer receives is a prefix of what the peer sent, equal to it at the
+    end of the stream, back-pressure never drops; then every transition of
+    the macro-step graph (bursts of up to a whole transfer while the consumer
+    is not calling get_response, consumer pauses, requests dropped
+    mid-stream, a single request on the same connection) on the real
+    stream::Connection."""
+    mc = ctx.tlc("MC_ClientFlow", "MC_ClientFlow_thorough" if thorough else "MC_ClientFlow",
+                 workers=4, label="mc-flow", timeout=3000)
+    ctx.require_ok(mc, "MC_ClientFlow")
+    ctx.require_actions(mc, FLOW_ACTIONS)
+    # sanity model: a reply channel that drops when full violates the property
+    dev = ctx.tlc("MC_ClientFlow", "MC_ClientFlow_dev", workers=1, label="mc-flow-drop-when-full",
+                  coverage=False, expect_violation="FlowPrefix", count=False)
+    if not dev.ok:
+        raise vlib.ToolError("the drop-when-full model does not violate FlowPrefix")
+    cases = os.path.join(ctx.work, "flow-cases.ndjson")
+    gen = ctx.tlc("MC_ClientFlow", "Gen_ClientFlow_thorough" if thorough else "Gen_ClientFlow",
+                  workers=1, label="mc+gen-flow", coverage=False, cases_to=cases, timeout=3000)
+    ctx.require_ok(gen, "Gen_ClientFlow")
+    if gen.ncases < 2000:
+        raise vlib.ToolError("flow generator produced too few cases: %d" % gen.ncases)
+    # vacuity: bursts longer than the channel while the consumer is not
+    # calling, transfers handed over completely after that, requests dropped
+    # mid-stream with a single request answered afterwards
+    burst = whole = dropped = 0
+    for line in open(cases):
+        c = json.loads(line)
+        ops = c["in"]["ops"]
+        if any(o["op"] == "xfr" and len(o["fs"]) > 8 for o in ops):
+            burst += 1
+            if any(g and g[-1].get("eof") and len(g) > 9 for g in c["exp"][-1]["got"]):
+                whole += 1
+        d = [i for i, o in enumerate(ops) if o["op"] == "dropreq"]
+        if d and any(o["op"] == "answer" for o in ops[d[0]:]) \
+                and any(g and "ok" in g[-1] and g[-1]["ok"]["q"] < 500 for g in c["exp"][-1]["got"]):
+            dropped += 1
+    if burst < 500 or whole < 10 or dropped < 10:
+        raise vlib.ToolError("vacuity: flow cases too poor: burst=%d whole=%d dropped=%d" % (burst, whole, dropped))
+    head = os.path.join(ctx.work, "flow-head.ndjson")
+    _head(cases, head, 40)
+    rc, out, err, _ = ctx.run_bin("replay_client", ["--selftest-perturb"], stdin_path=head)
+    ctx.selftest("perturbed expectation is reported by replay_client (flow)", "FAIL " in out)
+    ctx.replay_cases("replay_client", cases, label="flow")
 
 
 def _compose(ctx, thorough):
@@ -647,6 +699,7 @@ def run(ctx):
     _stream_model(ctx, thorough)
     _dgram_model(ctx, thorough)
     _replay(ctx, thorough)
+    _flow(ctx, thorough)
     _compose(ctx, thorough)
     _multi_fine(ctx, thorough)
     _config(ctx, thorough)
@@ -661,5 +714,5 @@ def run(ctx):
     ctx.assume("multi_stream back-off (random, below 2^n s, at most 60 s) is shorter than one tick (100 s for multi_stream cases; 10 s and at most three failures for dgram_stream cases), so a Delay ends with the next tick; on the 10 ms clock of the connection-failure cases (ticks far shorter than the back-off) a state in which a request is in its back-off with more than one tick to go is not expanded: when the back-off ends is then not determined, that the request completes on time is")
     ctx.assume("fine clock (MC_ClientMulti / Trace_ClientMulti): time moves in ticks only, so every pause starts at a tick boundary; a pause of d < B ends with tick ceil(d / tick) <= ceil(B / tick); retry_time never yields exactly zero")
     ctx.assume("balancers: every upstream that is asked hands back one result (assume/guarantee); which usable upstream is tried next and after how many ticks the probe timer fires is left open")
-    ctx.assume("no caller drops its request future before it resolves")
+    ctx.assume("no caller drops a single-response request future before it resolves (dropping a multi-response request mid-stream is covered by ClientFlow)")
     ctx.assume("zone transfers: later messages of a transfer are matched by ID only (check_stream checks neither QR nor the question after the first SOA); the spec states the same")
